@@ -222,6 +222,26 @@ def r2_completeness(ctx):
             and ("itemgetter(1)" in unparse(e.left) or "[1]" in unparse(e.left))
     ctx.ob("C18.R2", RES, "Result._group_p", top, "a group of the right size is still removed when its evaluations do not cover every level (a duplicated level hides a missing one)",
            any(distinct_levels(d) for d in removed), detail={"removed when": removed}, stmt="distinct levels in group")
+    # the keep / remove decision is taken group by group: nothing is kept on the strength of a global count (an over-full group can cancel an incomplete one)
+    grp_loops = [x for x in walk_shallow(gp) if isinstance(x, ast.For) and "grouper(indexes" in unparse(x.iter)]
+    outside = []
+    for x in ast.walk(gp):
+        tgt = None
+        if isinstance(x, ast.Assign) and any(isinstance(t, ast.Name) and t.id == "to_keep" for t in x.targets) and not (isinstance(x.value, ast.List) and not x.value.elts):
+            tgt = x
+        if isinstance(x, ast.Assign) and any(isinstance(t, ast.Tuple) and any(isinstance(e, ast.Name) and e.id == "to_keep" for e in t.elts) for t in x.targets):
+            v = x.value
+            i = [isinstance(e, ast.Name) and e.id == "to_keep" for t in x.targets if isinstance(t, ast.Tuple) for e in t.elts].index(True)
+            if not (isinstance(v, ast.Tuple) and isinstance(v.elts[i], ast.List) and not v.elts[i].elts):
+                tgt = x
+        if isinstance(x, ast.Call) and isinstance(x.func, ast.Attribute) and unparse(x.func.value) == "to_keep" and x.func.attr in ("extend", "append"):
+            tgt = x
+        if isinstance(x, ast.AugAssign) and unparse(x.target) == "to_keep":
+            tgt = x
+        if tgt is not None and not any(tgt in list(ast.walk(l)) for l in grp_loops):
+            outside.append(tgt)
+    ctx.ob("C18.R2", RES, "Result._group_p", outside[0] if outside else gp, "triples are kept only by the per-group test (no shortcut keeps them on a global count)", not outside,
+           detail={"kept outside the group loop": [unparse(o)[:80] for o in outside]}, stmt="keep decided per group")
     nl = assigned_value(gp, "n_levels")
     ctx.ob("C18.R2", RES, "Result._group_p", gp, "the number of levels is the number of distinct l-values present", len(nl) == 1 and unparse(nl[0]) == "len(set(map(itemgetter(1), indexes)))", stmt="n_levels")
     grp = [x for x in walk_shallow(gp) if isinstance(x, ast.For) and "grouper(indexes" in unparse(x.iter)]
@@ -339,6 +359,11 @@ def r8_pairing_after_length(ctx):
     ctx.floor("C18.R8", "length filter calls in _filter_fin", len(pos["_global_n"]), 1)
     params = [a.arg for a in fn.args.args][1:]
     N, Lp, Pp = params[0], params[1], params[2]
+    # with only one of l / p given the other takes its documented default before pairing
+    firsts = pos["_group_p"][:1]
+    dflt = [st for st in stmts if isinstance(st, (ast.If, ast.Assign)) and "'learner_id'" in unparse(st) and "'environment_id'" in unparse(st)]
+    ok = bool(dflt) and bool(firsts) and stmts.index(dflt[0]) < firsts[0][0] and f"{Lp} or 'learner_id'" in unparse(dflt[0]) and f"{Pp} or 'environment_id'" in unparse(dflt[0])
+    ctx.ob("C18.R8", RES, "Result._filter_fin", dflt[0] if dflt else fn, "a missing l defaults to 'learner_id' and a missing p to 'environment_id' before the pairing filter runs", ok, stmt="l/p defaults")
     for i, st in pos["_global_n"]:
         later = [s2 for j, s2 in pos["_group_p"] if j > i]
         ok = False
@@ -377,6 +402,8 @@ def r7_view_owner(ctx):
 
 
 CONTROLS = [
+    ("pairing with a None level", RES, M.delete_stmt("Result._filter_fin", lambda st: isinstance(st, ast.If) and "'learner_id'" in ast.unparse(st)), "C18.R8"),
+    ("global count shortcut keeps everything", RES, M.insert_before("Result._group_p", lambda st: isinstance(st, ast.Try), "if len(indexes) == n_levels * len(set(map(itemgetter(0), indexes))):\n    to_keep = [g[2:5] for g in indexes]\n    indexes = []"), "C18.R2"),
     ("pairing only before the length filter", RES, M.delete_stmt("Result._filter_fin", M.text_has("if n and n != 'min' and (l or p): result = result._group_p(l, p)")), "C18.R8"),
     ("group size only", RES, M.replace_expr("Result._group_p", "len(group) < n_levels or len(set(map(itemgetter(1), group))) < n_levels", "len(group) < n_levels"), "C18.R2"),
     ("rows of the unfiltered result applied to the filtered table", RES, M.replace_expr("Result.filter_best", "only_finished._remove(to_drop)", "self._remove(to_drop)"), "C18.R7"),
